@@ -178,7 +178,7 @@ theorem canCreateTask_of {rj : Job} (hk : rj.killTimestamp = none) (ha : rj.admi
     canCreateTask rj = true := by
   unfold canCreateTask; simp [hk, ha]
 
-theorem passFacts_of_inv {j0 jo : JobObj} {s sp : Sys} (hb : Base j0 s) (h2 : Inv2 j0 s) (h3 : Inv3 s)
+theorem passFacts_of_inv {j0 jo : JobObj} {s sp : Sys} (hb : Base j0 s) (h2 : Inv2 j0 s) (ho : Owned j0 s) (h3 : Inv3 s)
     (hwf : WF2 j0 s.d) (hwf3 : WF3 j0) (hc : s.jobCache = some jo) (hf : Frame s sp)
     (henv : NoStale s) : PassFacts j0 s sp jo := by
   have hseen := mem_seenVers_cache hc
@@ -188,7 +188,7 @@ theorem passFacts_of_inv {j0 jo : JobObj} {s sp : Sys} (hb : Base j0 s) (h2 : In
   have h2sp := h2.frame hf
   have hcsp : sp.jobCache = some jo := hf.jobCache.trans hc
   have hg : Good j0 sp.d jo.job := h2sp.seen jo (mem_seenVers_cache hcsp)
-  have ctx : PassCtx j0 sp := ⟨h2sp.pods, by rw [hf.pods]; exact hb.podsNodup, by
+  have ctx : PassCtx j0 sp := ⟨h2sp.pods, ho.frame hf, by rw [hf.pods]; exact hb.podsNodup, by
     intro c hcm hfin
     rw [hf.pods]
     exact h3.lin c (Or.inl (hf.podCache ▸ hcm)) hfin⟩
@@ -296,7 +296,7 @@ theorem Inv3G.init {j0 : JobObj} (hwf : WF j0) (hwf3 : WF3 j0) (clock : Int) (cf
     subst hv'; subst hj
     exact fun n hn => hn
 
-theorem Inv3G.step {j0 : JobObj} {s : Sys} (hb : Base j0 s) (h2 : Inv2 j0 s) (h3 : Inv3G s) (hwf : WF2 j0 s.d)
+theorem Inv3G.step {j0 : JobObj} {s : Sys} (hb : Base j0 s) (h2 : Inv2 j0 s) (ho : Owned j0 s) (h3 : Inv3G s) (hwf : WF2 j0 s.d)
     (hwf3 : WF3 j0) (a : Action) (henv : stabEnv s a) (hal : Allowed j0 s a) : Inv3G (JobCtl.step s a) := by
   intro hj'
   -- the Job existed before the step
@@ -320,7 +320,7 @@ theorem Inv3G.step {j0 : JobObj} {s : Sys} (hb : Base j0 s) (h2 : Inv2 j0 s) (h3
     | none => exact h3'.frame (work_frame s hc)
     | some jo =>
       obtain ⟨sp, hf, hm⟩ := work_micros s jo hc
-      have pf := passFacts_of_inv hb h2 h3' hwf hwf3 hc hf hns
+      have pf := passFacts_of_inv hb h2 ho h3' hwf hwf3 hc hf hns
       have hcsp : sp.jobCache = some jo := hf.jobCache.trans hc
       refine Inv3G.micros (hb.frame hf) (h2.frame hf) (fun _ => h3'.frame hf) hcsp pf rfl rfl
         (fun h0 => hf.job.trans h0) ?_ hm hj'
@@ -373,6 +373,6 @@ theorem inv3_of_reach {ok : Sys → Action → Prop} (hok : ∀ s a, ok s a → 
   | step a hr' hoka hal ih =>
     rw [step_d] at hwf
     have henv := hok _ a hoka
-    exact (ih hwf).step (base_of_reach hr') (inv2_of_reach (fun s a h => (hok s a h).1) hr' hwf) hwf hwf3 a henv hal
+    exact (ih hwf).step (base_of_reach hr') (inv2_of_reach hr' hwf) (owned_of_reach (fun s a h => (hok s a h).1) hr') hwf hwf3 a henv hal
 
 end Furiko.JobCtl
